@@ -69,7 +69,7 @@
 EXPORT int printf_s(const char *restrict fmt, ...) {
     va_list va;
     int ret;
-    char buffer[1];
+    out_fct_wrap_type wrap;
 
     if (unlikely(fmt == NULL)) {
         invoke_safe_str_constraint_handler("vsnprintf_s: fmt is null",
@@ -83,11 +83,17 @@ EXPORT int printf_s(const char *restrict fmt, ...) {
         return -(EINVAL);
     }
 
+    errno = 0;
+    wrap.arg = stdout;
+    wrap.failed = 0;
     va_start(va, fmt);
-    ret = safec_vsnprintf_s(safec_out_char, "printf_s", buffer, (rsize_t)-1, fmt, va);
+    ret = safec_vsnprintf_s(safec_out_fchar, "printf_s", (char *)&wrap,
+                            (rsize_t)-1, fmt, va);
     va_end(va);
 
-    if (unlikely(ret < 0 && errno != 0)) {
+    /* constraint violations have been reported where they were found:
+       what is left to report is a failing stdout */
+    if (unlikely(ret < 0 && wrap.failed)) {
         char errstr[128] = "printf_s: ";
         strcat(errstr, strerror(errno));
         invoke_safe_str_constraint_handler(errstr, NULL, -ret);
